@@ -121,7 +121,7 @@ class RandomGen(Gen):
 
         metrics['sample_count'] = sample_count
         metrics['total_rejected'] = total_rejected
-        metrics['avg_rejected'] = total_rejected / sample_count
+        metrics['avg_rejected'] = total_rejected / sample_count if sample_count > 0 else 0
         if (total_rejected > 10000):
             print("")
 
